@@ -5,11 +5,11 @@ namespace VgiVerif.C15.Driver
 open Lean VgiVerif.J VgiVerif.HttpReq VgiVerif.C15
 
 def route : String → R Route
-  | "unary" => pure .unary | "init" => pure .init | "exchange" => pure .exchange
+  | "unary" => pure .unary | "init" => pure .init | "exchange" => pure .exchange | "uploadUrl" => pure .uploadUrl
   | s => throw s!"route {s}"
 
 def kind : String → R MethodKind
-  | "unary" => pure .unary | "producer" => pure .producer | "exchanger" => pure .exchanger | "unknown" => pure .unknown
+  | "unary" => pure .unary | "producer" => pure .producer | "exchanger" => pure .exchanger | "unknown" => pure .unknown | "describe" => pure .describe
   | s => throw s!"kind {s}"
 
 def parseExc : String → R ParseExc
